@@ -98,13 +98,20 @@ def judge(ctx, rule_name, element, seq, expected, stats=None):
             # an error list that already holds entries (validate.tree shares one list across nodes): only what this call
             # appends counts, and what was there must stay
             errs.append(_earlier_entry())
+            twin = emlkit.make_node(rule_name, element, names)
+            try:
+                emlkit.validate_as(rule_name, twin, errs)
+            except Exception:
+                pass
+            emlkit.discard(twin)
+            before = list(errs)
             ctx.count("collecting_calls_with_prefilled_list")
         try:
             emlkit.validate_as(rule_name, parent, errs)
             if prefilled:
-                if not errs or errs[0] is not _EARLIER[0]:
+                if len(errs) < len(before) or not all(a is b for a, b in zip(errs, before)):
                     ctx.violation("earlier-entries-disturbed|collecting", f"{rule_name}: entries present before the call were changed", wit)
-                errs = errs[1:]
+                errs = errs[len(before):]
             if mode == "failfast":
                 got = relang.ACCEPT
             elif not errs:
